@@ -8,19 +8,19 @@ TARGETS = {
 PROP = {
     "subchecks": [
         {"target": "c17_actions_rc", "sub": "tree", "env": {"ASAN_OPTIONS": _ASAN},
-         "quick": {"cases": 18000, "max_size": 100, "workers": 6, "case_alarm": 60},
+         "quick": {"cases": 45000, "max_size": 100, "workers": 6, "case_alarm": 60},
          "thorough": {"cases": 400000, "max_size": 100, "workers": 8, "case_alarm": 60}},
         {"target": "c17_actions_rc", "sub": "reset_meta", "env": {"ASAN_OPTIONS": _ASAN},
-         "quick": {"cases": 11000, "max_size": 100, "workers": 3, "case_alarm": 60},
+         "quick": {"cases": 25000, "max_size": 100, "workers": 3, "case_alarm": 60},
          "thorough": {"cases": 250000, "max_size": 100, "workers": 4, "case_alarm": 60}},
         {"target": "c17_actions_rc", "sub": "pause_meta", "env": {"ASAN_OPTIONS": _ASAN},
-         "quick": {"cases": 11000, "max_size": 100, "workers": 3, "case_alarm": 60},
+         "quick": {"cases": 25000, "max_size": 100, "workers": 3, "case_alarm": 60},
          "thorough": {"cases": 250000, "max_size": 100, "workers": 4, "case_alarm": 60}},
         {"target": "c17_actions_rc", "sub": "executor", "env": {"ASAN_OPTIONS": _ASAN},
-         "quick": {"cases": 4000, "max_size": 60, "workers": 1, "case_alarm": 60},
+         "quick": {"cases": 8000, "max_size": 60, "workers": 1, "case_alarm": 60},
          "thorough": {"cases": 100000, "max_size": 60, "workers": 1, "case_alarm": 60}},
         {"target": "c17_actions_fuzz", "sub": "tree",
-         "quick": {"runs": 25000, "max_len": 600, "workers": 2, "unit_timeout": 60},
+         "quick": {"runs": 40000, "max_len": 600, "workers": 2, "unit_timeout": 60},
          "thorough": {"runs": 400000, "max_len": 900, "workers": 2, "unit_timeout": 60}},
     ],
     "assumptions": [
